@@ -783,8 +783,8 @@ impl<'a, BF: PrimeField64, EF: ExtensionField<BF>> Gen<'a, BF, EF> {
     /// Horner shapes: chains, broken chains, same (alpha,pz,px) with different accumulators,
     /// two chains back to back, accumulators that are not a previous step.
     fn horner_shape(&mut self) {
-        let shape = if self.cfg.horner == 1 { 5 } else { self.rng.below(6) };
-        let steps = self.rng.range(1, 5);
+        let shape = if self.cfg.horner == 1 || self.cfg.horner == 3 { 5 } else { self.rng.below(6) };
+        let steps = if shape == 5 { self.rng.range(1, 9) } else { self.rng.range(1, 5) };
         let emit = |g: &mut Self, acc: usize, al: usize, pz: usize, px: usize| -> usize {
             let v = g.v(acc) * g.v(al) + g.v(pz) - g.v(px);
             g.calls.push(Call::Horner(acc, al, pz, px));
@@ -796,12 +796,23 @@ impl<'a, BF: PrimeField64, EF: ExtensionField<BF>> Gen<'a, BF, EF> {
                 // that the steps are emitted consecutively, intermediate outputs never reused
                 let al = self.any();
                 let ops: Vec<(usize, usize)> = (0..steps).map(|_| (self.any(), self.any())).collect();
+                if self.calls.iter().rev().find(|c| !matches!(c, Call::Const(_) | Call::Public | Call::Private | Call::Connect(..))).is_some_and(|c| matches!(c, Call::Horner(..))) {
+                    // keep this chain from being scheduled as a continuation of the previous one
+                    let (x, y) = (self.any(), self.any());
+                    self.op2(2, x, y);
+                }
                 let mut acc = self.emit_const(EF::ZERO);
                 for (k, (pz, px)) in ops.iter().enumerate() {
                     acc = emit(self, acc, al, *pz, *px);
                     if k + 1 < steps {
                         self.arena[acc].excluded = true;
                     }
+                }
+                if self.rng.chance(1, 2) {
+                    // the usual use: the folded value is compared with an expected input
+                    let v = self.v(acc);
+                    let e = self.fresh_input_eq(v);
+                    self.calls.push(Call::Connect(acc, e));
                 }
             }
             0 | 1 => {
@@ -1031,7 +1042,13 @@ pub fn generate<BF: PrimeField64, EF: ExtensionField<BF>>(rng: &mut Rng, cfg: &G
     g.emit_input(v, false);
     let v = g.rand_val();
     g.emit_const(v);
+    // horner == 3: proper chains only, and at least one of them, at a seeded position
+    let mut forced_at = if cfg.horner == 3 { Some(g.rng.range(0, target)) } else { None };
     while g.calls.len() < target {
+        if forced_at.is_some_and(|t| g.calls.len() >= t) {
+            forced_at = None;
+            g.horner_shape();
+        }
         g.step();
     }
     if cfg.claim_privates {
